@@ -50,8 +50,13 @@ def step (op : String) (args : List String) : Option String :=
     let rs : Option (List Req) ← if reqs = "-" then some (some []) else if reqs = "bad" then some none else ((reqs.splitOn "+").mapM req?).map some
     let pl ← if pns = "-" then some [] else (pns.splitOn "+").mapM pn?
     let cl : Option (List String × List String) ← if cluster = "-" then some none else
+      -- vSwitches : security_groups [: legacy security_group]; the effective groups are the sorted, duplicate-free union
+      -- (GetSecurityGroups); more than ten make ConfigFromConfigMap fail: the configuration cannot be read
       match cluster.splitOn ":" with
-      | [v, s] => some (some (lst v, lst s))
+      | [v, s] => some (if (sortDedup (lst s)).length > 10 then none else some (lst v, sortDedup (lst s)))
+      | [v, s, legacy] =>
+        let eff := sortDedup (legacy :: lst s)
+        some (if eff.length > 10 then none else some (lst v, eff))
       | _ => none
     let inp : Input := { pod := p, annoNets := annoNets, reqs := rs, pns := pl, nsExists := (← bool? nsE),
                          prevZone := if prev = "-" then none else some prev, ipamCRD := (← bool? crd), inject := (← bool? inj),
